@@ -27,6 +27,41 @@ chk("C08",
     "Scope is bounded (N<=7, 3 levels); noise-like long curves are covered only through the same case analysis.",
     "TLA+ spec (Peaks/PeakRules) model-checked with TLC; every TLC state replayed into the real objects", "DESIGN.md#c08")
 
+HV_NOTE = ("Trusted: TLC; the transcription of the estimators / peak rules / FDWRA in spec/{ExactStats,PeakRules,HvsrObject}.tla; "
+           "the value encodings (frequency j*0.02 Hz or e^(j/q), amplitude = level or e^(level/q)) and rtol 1e-9 when an exact "
+           "rational is compared with a float. Scope bounded (3-5 windows, 6-8 grid points, <= 2 azimuths); quick runs replay a "
+           "seeded sample of the initial curve assignments, thorough runs many more.")
+
+chk("C05",
+    "TLC explores every history (range updates, FDWRA, time-domain and manual rejection) of small curve sets on the HvsrObject "
+    "state machine, checks the mask/peak invariants and exports the exact textbook estimators over exactly the accepted windows; "
+    "the transition graph is replayed on real HvsrTraditional objects in four value encodings and in every state all statistic "
+    "accessors (incl. the 'log-normal' alias, +-n sigma, covariance, mean/std curves, mean-curve peak, period consistency) are "
+    "compared with the exact value. A negative configuration shows TLC finds the history that breaks a mask-blind estimator.",
+    HV_NOTE, "TLA+ state machine (HvsrObject) model-checked with TLC; exported transition graph replayed on the real objects; "
+    "deviating steps re-judged by TLC trace validation against the property tier", "DESIGN.md#c05")
+chk("C06",
+    "The published FDWRA iteration is specified in exact rational arithmetic (property tier keeps both outcomes at exact ties); TLC "
+    "checks on every Fdwra step never-re-accepts, 1<=iterations<=max_iterations and implementation-shaped outcome in the property "
+    "set, for all orderings of sampled window multisets; every transition (4 n values x 4 max_iterations x 4 ranges x cached/uncached "
+    "entry x arbitrary start masks) is replayed on real traditional and azimuthal objects (return value + masks), amplitudes x8; "
+    "lognormal-fn runs of the real function are recorded and validated by TLC against the property tier.",
+    HV_NOTE + " For a lognormal fn the criterion on |mean fn - mean-curve peak| needs exp() and is left open in the property tier.",
+    "TLA+ FDWRA operator model-checked with TLC; transitions replayed into the real function; recorded runs validated by TLC (trace validation)",
+    "DESIGN.md#c06")
+chk("C11",
+    "TLC checks in every reachable state of a 2-azimuth object the algebra of the Cheng weighting (equal counts = pooled, order of "
+    "azimuths irrelevant, mean = mean of azimuth means; one azimuth = traditional) and exports the exact weighted estimators; the "
+    "graph is replayed on real HvsrAzimuthal objects (unequal per-azimuth counts, peak-less and all-flat azimuths included) and all "
+    "weighted accessors are compared in every state.",
+    HV_NOTE, "TLA+ state machine (HvsrObject, NA=2) model-checked with TLC; exported graph replayed on real HvsrAzimuthal objects", "DESIGN.md#c11")
+chk("C12",
+    "TLC checks MetaRangeCurrent (the range a reader re-searches with equals the range the peaks were computed with) in every "
+    "reachable state; every state of the exported graphs is reached on real traditional / azimuthal objects, written and read back: "
+    "curves bit for bit, masks, range, peaks, all statistics (==), derived file columns against the object and the exact value; "
+    "real states whose meta range is stale are round-tripped too; random diffuse-field objects.",
+    HV_NOTE, "TLA+ state machine model-checked with TLC; every reached real state written/read and compared", "DESIGN.md#c12")
+
 def main():
     man = dict(
         version=1,
